@@ -1505,6 +1505,10 @@ pub(crate) fn item_delta(
     Ok(Fixed::from_i32(ivs?.compute_delta(ix, coords)?))
 }
 
+#[cfg(googlefonts_fontations_verif)]
+#[path = "/verif/harness/incrate/variations.rs"]
+mod verif_harness;
+
 #[cfg(test)]
 mod tests {
     use font_test_data::bebuffer::BeBuffer;
